@@ -203,5 +203,5 @@ RecDuration(s) ==
                    maxdigits |-> maxdig,
                    rest |-> (IF tot.big THEN <<0, 0, 0>> ELSE D3Add(<<tot.ds[1], tot.ds[2], fq.r>>, IF fr.up THEN <<0, 0, 1>> ELSE <<0, 0, 0>>)),
                    tie |-> fr.tie, hasfrac |-> fracIdx # {}, fraclen |-> (IF fracIdx = {} THEN 0 ELSE Len(cs[n].frac)),
-                   ncomp |-> n]
+                   fracrank |-> (IF fracIdx = {} THEN 0 ELSE cs[n].rank), ncomp |-> n]
 =============================================================================
